@@ -59,6 +59,7 @@ type subEnv struct {
 	// per handler goroutine ("server-<client>"): scripts of the starts sent and not yet dialled
 	pendingStarts map[string][]*upScript
 	eventSeq      int
+	sameEvents    bool // every upstream emits the same event again and again (determinism runs)
 	refuse        func(svc int) bool
 	// every client-side connection end, for leak checks
 	srvConns []*simnet.Conn
@@ -214,6 +215,9 @@ func (se *subEnv) runUpstream(uc *upstreamConn) {
 		case "event":
 			se.eventSeq++
 			seq := se.eventSeq
+			if se.sameEvents {
+				seq = 1
+			}
 			ex.EventSeq = seq
 			resp, _, errs := ex.Run(uc.query, uc.opName, uc.vars)
 			if errs != nil {
@@ -222,6 +226,20 @@ func (se *subEnv) runUpstream(uc *upstreamConn) {
 			}
 			uc.emitted = append(uc.emitted, seq)
 			err = wsutil.WriteServerText(conn, wsMsg("data", "1", map[string]interface{}{"data": resp.Data}))
+		case "event-with-errors":
+			// partial data together with errors in one data frame
+			se.fire("upstream.event-with-errors")
+			se.eventSeq++
+			ex.EventSeq = se.eventSeq
+			resp, _, errs := ex.Run(uc.query, uc.opName, uc.vars)
+			if errs != nil {
+				err = wsutil.WriteServerText(conn, wsMsg("error", "1", []interface{}{map[string]interface{}{"message": "invalid subscription: " + errs.Error()}}))
+				break
+			}
+			msg := fmt.Sprintf("upstream-partial-%d-%d", uc.n, len(uc.errsSent))
+			uc.errsSent = append(uc.errsSent, msg)
+			err = wsutil.WriteServerText(conn, wsMsg("data", "1", map[string]interface{}{"data": resp.Data, "errors": []interface{}{
+				map[string]interface{}{"message": msg, "path": []interface{}{"zzRoot", 0, "zz"}, "extensions": map[string]interface{}{"code": "PARTIAL"}}}}))
 		case "error":
 			se.fire("upstream.error-frame")
 			msg := fmt.Sprintf("upstream-error-%d-%d", uc.n, len(uc.errsSent))
